@@ -81,7 +81,12 @@ def static_configs(thorough, seed):
         lat = U.lattice(dim, n)
         for k in range(0, kmax + 1):
             big = (k == kmax and k >= 3)
-            for ms in U.multisets(len(lat), k):
+            mss = list(U.multisets(len(lat), k))
+            if big and not thorough:
+                # quick tier: one residue class (mod 3) of the largest-k
+                # placements, rotating with the seed; thorough takes all
+                mss = mss[seed % 3::3]
+            for ms in mss:
                 pts = [lat[i] for i in ms]
                 hps = h_patterns(k, hv, k <= hfull or thorough)
                 aps = arr_patterns(k)
